@@ -1,4 +1,6 @@
 //! C08 — exceptions reach the innermost active handler; finally always runs.
+use crate::pool::par_map;
+use proto::Request;
 use crate::ast::*;
 use crate::common::*;
 use crate::diff::*;
@@ -599,6 +601,65 @@ pub fn cases_for_c04(thorough: bool) -> Vec<Case> {
     v
 }
 
+/// A failing built-in operation is delivered to the handler with the handling function's variables intact -
+/// for every built-in method there is, not six representatives.  Every method of every built-in class and
+/// object (C02's table: strings, tuples, vecs, ranges, maps, the six iterator classes, fibers and the Fiber
+/// class, error classes, instances, numbers, classes) is called with every tuple of 0-2 arguments from a
+/// pool of eight values inside a try block of a function that has a parameter, two locals declared before
+/// the try statement and one after it: whether the call completes or fails, the parameter and the locals
+/// read as they were written, before and after the handler, in a plain function, a method and a closure
+/// that captured one of them.
+pub fn failing_built_ins_leave_variables_intact(ctx: &Ctx, report: &mut Report, only_fibers: bool) -> usize {
+    let prelude = "#[constructor(new)]\nclass K { fn m(self) { return 1; } }\nvar inst = K.new();\nvar suspended = Fiber.new(|| { Fiber.yield(1); return 2; }); suspended.call();\nvar finished = Fiber.new(|| 1); finished.call();\nvar fresh_fiber = Fiber.new(|a| a);\nvar spent_iter = [1].iter(); spent_iter.next(); spent_iter.next();\n";
+    let args_pool = ["nil", "1", "\"a\u{e9}\"", "[1, \"a\"]", "(1, 2)", "(|a| a)", "inst", "finished"];
+    let mut programs: Vec<(String, String)> = Vec::new();
+    for (class, recv, methods) in crate::c02::natives() {
+        if only_fibers && !class.starts_with("Fiber") {
+            continue;
+        }
+        for (m, _arity) in methods {
+            for k in 0..=2usize {
+                let mut tuples: Vec<Vec<&str>> = vec![vec![]];
+                for _ in 0..k {
+                    tuples = tuples.into_iter().flat_map(|t| args_pool.iter().map(move |a| { let mut v = t.clone(); v.push(*a); v })).collect();
+                }
+                for t in tuples {
+                    let call = format!("{}.{}({})", if recv.starts_with(|c: char| c.is_ascii_digit() || c == '{') { format!("({})", recv) } else { recv.to_string() }, m, t.join(", "));
+                    for shape in 0..3usize {
+                        let body = format!("  var before = \"before\";\n  var label = \"label\";\n  try {{\n    {};\n    print(\"completed\");\n  }} catch e {{\n    print(\"caught\");\n  }}\n  print([p, before, label]);\n  var after = \"after\";\n  print([after, label]);\n  return label;\n", call);
+                        let src = match shape {
+                            0 => format!("{}fn handler(p) {{\n{}}}\nprint(handler(\"param\"));\nprint(\"end\");\n", prelude, body),
+                            1 => format!("{}#[constructor(new)]\nclass H {{ fn handler(self, p) {{\n{}}} }}\nprint(H.new().handler(\"param\"));\nprint(\"end\");\n", prelude, body),
+                            _ => format!("{}fn outer() {{\n  var p = \"param\";\n  var f = || {{\n{}  }};\n  return f();\n}}\nprint(outer());\nprint(\"end\");\n", prelude, body.replace("\n  ", "\n    ")),
+                        };
+                        programs.push((src, format!("{} {} / {} arguments / shape {}", class, call, k, shape)));
+                    }
+                }
+            }
+        }
+    }
+    let n = programs.len();
+    let results = par_map(&ctx.runner_checked, ctx.workers, programs.into_iter(), |runner, _i, (src, what)| {
+        let mut req = Request { op: "run".into(), snippets: vec![src.clone()], fuel: Some(2_000_000), ..Default::default() };
+        let obs = runner.call(&mut req);
+        let problem = match obs.resp().and_then(|r| r.results.get(0).cloned()) {
+            Some(r) => {
+                let tail = ["[param, before, label]", "[after, label]", "label", "end"];
+                let ok = matches!(r.outcome, proto::Outcome::Ok) && r.out.len() == 5 && (r.out[0] == "completed" || r.out[0] == "caught") && r.out[1..].iter().zip(tail.iter()).all(|(a, b)| a == b);
+                if ok { None } else { Some(format!("printed {:?}, ended with {:?}; expected `completed` or `caught`, then {:?}", r.out, r.outcome, tail)) }
+            }
+            None => Some(format!("run ended in {}", obs.describe())),
+        };
+        (src, what, problem)
+    });
+    for (src, what, problem) in results {
+        if let Some(p) = problem {
+            report.violations.push((format!("[a failing built-in leaves the handler's variables intact: {}] {}", what, p), json!({"family": "failing_built_ins_leave_variables_intact", "request": {"op": "run", "snippets": [src]}, "problem": p})));
+        }
+    }
+    n
+}
+
 pub fn run(ctx: &Ctx) -> Report {
     let mut report = Report::new();
     let active = active_findings(ctx, &mut report);
@@ -678,6 +739,8 @@ pub fn run(ctx: &Ctx) -> Report {
         "an abrupt exit from a finally block is outside the alphabet (X)".into(),
         "a disagreement is attributed to a listed finding only if its trigger occurs in the model's own execution and both sides agree on everything printed before it".into(),
     ];
+    let n_fb = failing_built_ins_leave_variables_intact(ctx, &mut report, false);
+    report.cov("failing_built_ins_leave_variables_intact", json!(n_fb));
     record_known(&mut report, &active, &stats.attributed);
     let _ = trigger_free;
     report.violations.extend(stats.violations);
